@@ -7,7 +7,7 @@ import contracts
 import guards
 import keyrule
 import wire
-from symex import Sym, Unsupported
+from symex import Sym, State, Unsupported
 
 LEVEL = 'other'
 TITLE = 'C02 every factory-built node reports exactly the operands it was built from'
@@ -281,6 +281,42 @@ def run(ck, F):
     # a declaration entered a second time (same name and type: a redeclaration; or a new type under a known name) reports its own
     # operands like a first declaration does
     redeclaration_operands(ck, F, 'C02')
+
+    # elements the client builds in place (tokens of a pragma, captures of a closure, designators of a using-declaration): no
+    # factory stands between the client's arguments and the node, the constructor is the contract
+    R_inpl = ck.rule('C02.built-in-place', 'an element that the client constructs in place in a public sequence of a node (obj_list / '
+                     'obj_sequence member) reports every constructor argument, whole, under one of its accessors: none is dropped, '
+                     'and none is stored through a base-class view of it (a location reduced to its line and column)', floor=3)
+    import re as _re2
+    built = {p_.get('class') for ps_ in cur.values() for p_ in ps_ if p_.get('class')}
+    inplace = set()
+    for n_, r_ in F.rec.items():
+        if n_ not in built:
+            continue
+        for c_ in [n_] + F.ancestors(n_):
+            for fl in (F.rec.get(c_) or {}).get('fields', []):
+                m_ = _re2.match(r'ipr::impl::(obj_list|obj_sequence)<(.*)>$', fl['t'])
+                if m_ and fl['access'] == 'public' and m_.group(2) in F.rec and m_.group(2) not in built:
+                    inplace.add(m_.group(2))
+    S_in = Sym(F, opaque=contracts.default_opaque(F), max_depth=48)
+    for T in sorted(inplace):
+        ctors = [g for g in F.fns_in(T) if g.get('ctor') and not g.get('copy') and not g.get('implicit') and g.get('params')]
+        for g in sorted(ctors, key=lambda g: g['id']):
+            st0 = State()
+            o = st0.new_obj(T)
+            try:
+                outs = [s_ for s_, _v in S_in.call_ctor({'id': g['id'], 'repo': True, 'parent': T}, o, [('param', i) for i in range(len(g['params']))], st0)
+                        if s_.throw is None]
+            except Unsupported as e:
+                raise AnalysisBroken(f'{g["id"]}: {e}')
+            for pi_, s_ in enumerate(outs):
+                acc = contracts.observe(S_in, F, s_, o, {o[1]: 'R'})
+                whole = {v for v in acc.values() if isinstance(v, str)}
+                missing = [g['params'][i]['name'] or f'#{i}' for i in range(len(g['params']))
+                           if f'P{i}' not in whole and f'&P{i}' not in whole and f'*P{i}' not in whole]
+                ck.check(R_inpl, f'{contracts.short(T)}({", ".join(contracts.short(p_["t"]) for p_ in g["params"])})' + (f'#{pi_}' if len(outs) > 1 else ''),
+                         not missing, f'{g["id"]}: argument(s) {missing} are not reported whole by any accessor of the element '
+                         f'(accessors: { {k: str(v)[:60] for k, v in sorted(acc.items())} })', loc=g['loc'], fn=g['id'])
 
     # a node that is given a spelling reports the String interned for it: that String views exactly the bytes and the length of
     # the request (the arena copy made by make_string(word.data(), word.length())), whatever bytes the spelling contains
